@@ -254,6 +254,13 @@ def stepLine (_ : Unit) (toks : List String) : Unit × String :=
     match Ty.ofString ty, parseHex hex with
     | some t, some inp => decStr t (varint_from_source .enodata inp t.max) (fun c => s!" taken={c}") ""
     | _, _ => "bad-op"
+  | ["vi.decsrcb", ty, hex, k, e] =>
+    -- the source fails once in front of octet k: for the decoder that is the end of the source with that error
+    match Ty.ofString ty, parseHex hex, k.toNat?, Err.ofName e with
+    | some t, some inp, some k, some e =>
+      if e ≠ .eagain ∧ e ≠ .eintr ∧ e ≠ .eio then "bad-op" else
+      decStr t (varint_from_source (if k < inp.length then e else .enodata) (inp.take k) t.max) (fun c => s!" taken={c}") "" ++ " ## sound"
+    | _, _, _, _ => "bad-op"
   | ["vi.tosink", ty, v] =>
     match Ty.ofString ty, v.toInt? with
     | some t, some x => let e := encode (t.pattern x); s!"ok:{e.length} out={hexOf e}"
